@@ -186,7 +186,21 @@ where
     N: AsRef<str> + Ord + std::fmt::Display,
     V: Into<View<'a>>,
 {
-    let bytes = serialize(tensor_bytes_iter(tensors), None).map_err(to_io_error)?;
+    // The header of a safetensors file is a JSON map of tensor names to
+    // details of the tensor, in which the `__metadata__` key is reserved. A
+    // file which has a tensor with this name can't be read.
+    let mut named_tensors = Vec::new();
+    for (name, tensor) in tensors {
+        if name.as_ref() == "__metadata__" {
+            return Err(io::Error::new(
+                io::ErrorKind::InvalidInput,
+                "`__metadata__` is reserved and cannot be used as a tensor name",
+            ));
+        }
+        named_tensors.push((name, tensor));
+    }
+
+    let bytes = serialize(tensor_bytes_iter(named_tensors), None).map_err(to_io_error)?;
     writer.write_all(&bytes)
 }
 
@@ -356,6 +370,17 @@ mod tests {
         let err = read_array(&buffer[..], "missing").unwrap_err();
 
         assert_eq!(err.kind(), io::ErrorKind::NotFound);
+    }
+
+    #[test]
+    fn test_write_safetensors_rejects_reserved_name() {
+        let a: Tensor<i32> = [1, 2, 3].into();
+        let mut buffer = Vec::new();
+
+        let err = write(&mut buffer, [("a", a.view()), ("__metadata__", a.view())]).unwrap_err();
+
+        assert_eq!(err.kind(), io::ErrorKind::InvalidInput);
+        assert!(buffer.is_empty());
     }
 
     #[test]
